@@ -1137,6 +1137,7 @@ func main() {
 	big := flag.Int("big", 10, "number of big scenarios per big op family")
 	nav := flag.Int("av", 4, "number of avopen and of avstale replays")
 	workers := flag.Int("workers", 16, "parallel scenarios")
+	ncut := flag.Int("cut", 18, "number of trcut scenarios (response cut at byte k, followers must get a fresh connection)")
 	nlate := flag.Int("late", 24, "number of trlate scenarios (deadline mid-exchange, late answer, followers)")
 	flag.Parse()
 
@@ -1174,6 +1175,9 @@ func main() {
 	}
 	for i := 0; i < *nlate; i++ {
 		add(genTRLate(r))
+	}
+	for i := 0; i < *ncut; i++ {
+		add(genTRCut(r))
 	}
 
 	// big scenarios first, results printed in id order
